@@ -60,6 +60,14 @@ def check(chk):
                     except Unfoldable as e:
                         raise AnalysisError('get_lower_supported: StopIteration default not foldable: %s' % e)
     if dflt is None:
+        # next(<generator>, default)
+        for n in body_walk(gl):
+            if isinstance(n, ast.Call) and isinstance(n.func, ast.Name) and n.func.id == 'next' and len(n.args) == 2 and n.args[0] is ge:
+                try:
+                    dflt = folder.eval(n.args[1], env={'ProtocolVersion': consts, 'cls': consts})
+                except Unfoldable as e:
+                    raise AnalysisError('get_lower_supported: default of next() not foldable: %s' % e)
+    if dflt is None:
         raise AnalysisError('get_lower_supported: StopIteration default not found')
     domain = sorted(set(sup) | set([min(sup) - 1, max(sup) + 1, 0, 7, 0x40]))
     for prev in domain:
@@ -82,7 +90,8 @@ def check(chk):
         chk.judge(res == want and (res == 0 or (res < prev and res not in beta and res in sup)), 'C41.lower', gl, 'get_lower_supported(%#x) == %#x' % (prev, want),
                   'get_lower_supported(%#x) gives %#x; the next lower non-beta supported version is %#x' % (prev, res, want))
     rets = [n for n in body_walk(gl) if isinstance(n, ast.Return)]
-    chk.judge(len(rets) == 1 and src(rets[0].value) == 'version', 'C41.lower', gl, 'returns the version found (or the default)', 'return value changed')
+    chk.judge(bool(rets) and all(r.value is not None and (src(r.value) == 'version' or (isinstance(r.value, ast.Call) and r.value.args and r.value.args[0] is ge)) for r in rets),
+              'C41.lower', gl, 'returns the version found (or the default)', 'return value changed')
 
     # protocol_downgrade rows
     cl = chk.repo.mod(CLUSTER)
@@ -159,6 +168,24 @@ def check(chk):
         nd = [n for n in g.stmt_nodes() if n.ast is ws[0][0]][0]
         good = all(fa.knows('isinstance(response, ProtocolException)') is True and fa.knows("'unsupported protocol version' in response.message") is True for fa, _ in fl.at(nd))
     chk.judge(good, 'C41.unsupported', pm, 'is_unsupported_proto_version only for a ProtocolException saying "unsupported protocol version"', 'flag set under another condition')
+    # the waiter in factory() is woken by defunct() (connected_event.set()): the flag it then reads must already be there
+    if len(ws) == 1:
+        g = CFG(pm)
+
+        def stepf(node, c):
+            if node.ast is ws[0][0]:
+                return True
+            return c
+        flf = Flow(g, False, stepf)
+        dnodes = [n for n in g.stmt_nodes() if n.kind == 'stmt' and n.ast is not None and any(isinstance(x, ast.Call) and src(x.func) == 'self.defunct' for x in walk_no_nested(n.ast))]
+        early = []
+        for n in dnodes:
+            for fa, c in flf.at(n):
+                if fa.knows("'unsupported protocol version' in response.message") is True and not c:
+                    early.append(n)
+        chk.judge(not early, 'C41.unsupported', pm, 'the flag is set before the connection is defuncted (which wakes the thread waiting in factory())',
+                  'defunct() runs at line %s before is_unsupported_proto_version is set: factory() can wake on connected_event, find the flag still False and raise the bare '
+                  'ProtocolException, so the control connection re-raises instead of stepping down' % sorted(set(n.line() for n in early)))
     fa_ = conn.func('Connection.factory')
     g = CFG(fa_)
     fl = Flow(g, 0, lambda n, c: c)
